@@ -9,6 +9,21 @@ CHECKS = {
    text="Exhaustive within bounds (all histories to depth 3/4 over boundary-focused sizes and positions, real 1020+4 page, CRC-32C computed in TLA+), every explored transition replayed on the real types with observer digests, plus long random histories validated event-by-event by TLC against the ghost logical stream. Bounded, not a proof.",
    note="Trusts TLC, the PageSpec specification (guarded by its own invariants and coverage), and the harness's recording code. Behaviour after a refused physical_seek is not claimed.", ref="6 C11"),
 }
+FILE_NOTE = "Trusts TLC, the E57Format/E57Spec specification (an independent decoder written from the standard), the harness's recording code and the expat-based XML projection."
+CHECKS.update({
+ "C01": dict(category="model_checking", technique="TLA+ E57Spec/E57Format: TLC trace validation of recorded writer/reader executions; independent TLA+ decoder of the produced bytes",
+   text="Every writer program (section start swept over residues mod 1020, prototype families over all data types and integer widths, point counts at packet-capacity boundaries, section mixes) is executed on the real API; TLC replays the calls through the abstract writer, decodes the produced file with the TLA+ decoder and requires the decoded points, the reported prototype/record count and the raw reader's output to equal the API inputs bit for bit. Bounded sampling of an infinite input space, each case decided exactly.",
+   note=FILE_NOTE, ref="6 C01"),
+ "C02": dict(category="model_checking", technique="TLA+ E57Format decoder + Crc32c as judge of every finalized file (TLC trace validation)",
+   text="Every finalized file of the C01/C06 program families is judged by the TLA+ decoder: whole pages, every page checksum recomputed from the CRC-32C polynomial, header fields, XML well-formed and rooted in the E57 namespace, every published offset outside checksum bytes on a section of the right kind, section/packet lengths and alignment consistent, decoded content equal to the API inputs.",
+   note=FILE_NOTE, ref="6 C02"),
+ "C06": dict(category="model_checking", technique="TLA+ E57Spec/E57Format: TLC trace validation; blob sections located and compared by the TLA+ decoder",
+   text="Blob lengths over every residue mod 4 around the page payload size, start residues mod 1020, images of all four representations with/without mask between point clouds: descriptors must designate blob sections holding exactly the input bytes (TLA+ decoder) and the reader must return exactly those bytes and lengths.",
+   note=FILE_NOTE, ref="6 C06"),
+ "C12": dict(category="model_checking", technique="TLA+ abstract bit codec (E57Format.StreamEncodes) checked by TLC against streams extracted from real files",
+   text="For every width 0..64 (thorough; boundary widths in quick), negative and extreme minima, values at range extremes and alternating bit patterns, TLC extracts each record's byte stream from the data packets of the file the real writer produced and requires it to be exactly the LSB-first packing of value-min at width BitLen(max-min), contiguous across packets, zero padded; the real reader must return the values.",
+   note=FILE_NOTE, ref="6 C12"),
+})
 NOT_APPLICABLE = {}
 
 def main():
